@@ -350,9 +350,12 @@ class _PartialEvalInstance(DefaultVisitor):
                     d = self.def_use.find_def_from_site(binding, site)
                     self.by_def[d] = val
             case TupleBinding():
-                assert isinstance(val, tuple)
-                for elt, v in zip(binding.elts, val):
-                    self._visit_binding(site, elt, v)
+                # a list unpacks like a tuple
+                if isinstance(val, (tuple, list)) and len(val) == len(binding.elts):
+                    for elt, v in zip(binding.elts, val):
+                        self._visit_binding(site, elt, v)
+                else:
+                    self._clear_binding(site, binding)
 
     def _visit_assign(self, stmt: Assign, ctx: Context | None):
         self._visit_expr(stmt.expr, ctx)
